@@ -8,23 +8,23 @@ CLAIMS = {
              note='Not decided: that decl() itself parses as TypeScript, names interpolated inside generated format! templates (tag/content/variant literals), the `format` feature. Trusted: std string contracts, Unicode alphanumerics treated as TS identifier characters.'),
  'C05': dict(text='Histories and inputs: merge() is proved to be sorted insertion of the whole new declaration (unit merge) plus the ascending rendering of the union of both import headers, each name once (unit merge_imports); the registry logic of export_and_merge is proved to skip already-exported types, and over a ghost disk model: the first write of a process leaves exactly the generated text in the file, a later write replaces everything after the notice by merge(old file, new text), no other file changes. Unbounded in file size and number of declarations.',
              note='Not decided: thread interleavings (the Mutex argument is dropped by rewrite R6); declarations containing blank lines or the words `export type ` are outside the well-formedness hypothesis (known finding D7). Trusted: std string/collection contracts, the disk model of File::create / OpenOptions / write_all / read_to_string / seek (spec/std_fs_model.rs), no concurrent writer.'),
- 'C06': dict(text='Spelling independence: every export entry point reaches export_to with the canonical form norm(cwd ++ dir ++ output_path) of the target, so the registry key (and file) does not depend on how the directory is spelled or which entry point is used. Proved as call-site preconditions.',
+ 'C06': dict(text='Spelling independence: every export entry point reaches export_to with the canonical form norm(cwd ++ dir ++ output_path) of the target, so the registry key (and file) does not depend on how the directory is spelled or which entry point is used. Proved as call-site preconditions; export_all / export_all_to / export_all_into / Visit::visit hand the configured resp. the given directory down to export_into (token contracts, unit recursion).',
              note='Not decided: independence from call order and from stale files as directory contents (needs a file-system model). Trusted: std::path contracts (unix), fixed working directory.'),
  'C08': dict(text='For every pair of paths: absolute() computes norm(cwd ++ p); diff_paths() returns `..`s followed by the remaining components of the target, and resolving it against the base gives the target (proved with an induction over component sequences); import_path() returns exactly "./"-or-nothing + the rendering of that relative path with one `.ts` removed (+ `.js` iff import-esm); lemmas derive that the specifier starts with ./ or ../ and that re-adding .ts gives the rendering; generate_imports lists every dependency that lives in another file under import_path(own file, base ++ its output path) and never the file itself (unit gen_imports). Unbounded in depth.',
              note='Trusted: std::path contracts for unix (components, join, parent, to_string_lossy rendering and its parse round trip), no Windows prefixes; hypotheses: the dependency file name ends in .ts and is not an ancestor directory of the importing file; `forward slashes only` assumes component names contain no backslash.'),
  'C09': dict(text='Both renaming functions are proved equal to spec functions for every string and all eight rules; serde_derive\'s own apply_to_field/apply_to_variant (version from Cargo.lock) are lifted by the same lifter and proved equal to the same spec functions on serde\'s non-panicking domain, so ts-rs == serde for every identifier; the call sites in format_field / format_variant are checked: the rule is applied to the identifier without its r# prefix, an explicit rename wins.',
              note='Trusted: std str/char contracts (Unicode predicates uninterpreted outside ASCII), rule-name correspondence of the two rename_all parse tables, that serde uses these functions for wire names.'),
- 'C10': dict(text='Precedence only: for all four attribute kinds and every field, from_attrs returns wins(ts, serde) (ts value if present, else serde value) with serde-compat on, and exactly the ts value with serde-compat off; proved for all payload values (opaque) on the lifted merge/from_attrs bodies, in both cfg variants.',
+ 'C10': dict(text='Precedence only: for all four attribute kinds and every field, from_attrs returns wins(ts, serde) (ts value if present, else serde value) with serde-compat on, and exactly the ts value with serde-compat off; proved for all payload values (opaque) on the lifted merge/from_attrs bodies, in both cfg variants; #[ts(skip)] on a field or variant decides alone (its serde list is not consulted).',
              note='Not decided: equivalence of the hand-written ts/serde key tables and inertness of unknown serde keys (syn parser programs; the parsers are opaque stubs). Trusted: Option::or contract, syn skeletons.'),
- 'C11': dict(text='Path agreement and bookkeeping: the path a type reports (default_output_path) normalises to the registry key / file location export_all writes, for every base directory spelling; export_and_merge changes no file but its own (ghost disk model); export_recursive visits the dependencies of every new type; Dependencies::push contributes the type and its generic arguments, append_from its dependencies.',
+ 'C11': dict(text='Path agreement and bookkeeping: the path a type reports (default_output_path) normalises to the registry key / file location export_all writes, for every base directory spelling; export_and_merge changes no file but its own (ghost disk model); export_recursive visits the dependencies of every new type; Dependencies::push contributes the type and its generic arguments, append_from its dependencies; the six hand-written container impls (Option, Result, Vec, [T; N], HashMap, Range) forward visit_generics / visit_dependencies to every type argument (unit containers); export_all / export_all_to hand their directory down to every export_into.',
              note='Not decided: the generated visit_dependencies bodies (quote! templates) and therefore "exactly one file per reachable type".'),
  'C13': dict(text='Output-ordering mechanisms of merge() only: declarations are placed by sorted insertion and the import block is proved to be the rendering, in ascending order, of the set of (path, name) pairs whatever their arrival order (units merge, merge_imports); generate_imports renders its BTreeMap/BTreeSet in ascending order (unit gen_imports).',
              note='Not decided: hash-seed independence of the derive macro across compilations, test scheduling.'),
- 'C15': dict(text='Containment and placement: parse_docs renders a doc block that is exactly one comment for every doc text (no `*/` can end it early); FieldAttr::merge drops docs of flattened fields; from_attrs takes docs only from doc attributes; generate_decl places the block immediately before `export`.',
+ 'C15': dict(text='Containment, content and placement: parse_docs renders a doc block that is exactly one comment for every doc text (no `*/` can end it early) and is exactly the rendering of every doc attribute in order, the text itself with only backslashes inserted (lemma); FieldAttr::merge drops docs of flattened fields; from_attrs takes docs only from doc attributes; generate_decl places the block immediately before `export`.',
              note='Not decided: placement inside generated format! templates; variant docs (not emitted). Known finding D7 for merged files with blank lines inside doc blocks.'),
- 'C16': dict(text='Panic-freedom of the hand-written kernels (no slice/unwrap/expect/unreachable can fire in the rename functions, absolute, diff_paths, import_path, tagged, from_variant) and the rejection tables: every documented incompatible attribute combination makes assert_validity return Err, and assert_validity Ok implies tagged() Ok so that the expect in from_variant cannot fire. All values, no bound.',
+ 'C16': dict(text='Panic-freedom of the hand-written kernels (no slice/unwrap/expect/unreachable can fire in the rename functions, absolute, diff_paths, import_path, tagged, from_variant) and the rejection tables: every documented incompatible attribute combination makes assert_validity return Err, and assert_validity Ok implies tagged() Ok so that the expect in from_variant cannot fire; the dispatchers type_def and enum_def (head) return that error before any formatter runs. All values, no bound.',
              note='Not decided: that the expansion compiles; unknown-key errors of the syn parsers; the compile-time IsOption check. Context assumptions: enum_def validates before formatting variants; import_path is called with a file path that has a parent.'),
- 'C17': dict(text='Error-not-panic for path failures: absolute/diff_paths/import_path return Err(CannotBeExported) exactly when the target climbs above the root (Io errors apart) and never panic; export_into returns CannotBeExported for non-exportable types before any fs call; export_and_merge leaves the registry unchanged on every failing fs call (all fault positions at once).',
+ 'C17': dict(text='Error-not-panic for path failures: absolute/diff_paths/import_path return Err(CannotBeExported) exactly when the target climbs above the root (Io errors apart) and never panic; export_into returns CannotBeExported for non-exportable types before any fs call; export_and_merge leaves the registry unchanged on every failing fs call (all fault positions at once) and touches no other file; export_recursive / export_all_into return an error for a root that cannot be exported.',
              note='Not decided: "repeating the export produces the same directory contents" and "leaves every other file untouched" (file-system frame). Trusted: fs functions may fail at any call; std::path contracts.'),
 }
 NA = {
